@@ -587,7 +587,116 @@ fn run_trace(seed: u64, nops: usize, c: &mut Counters) {
 				}
 				c.op("threads-first-use");
 			}
-			19 if !cfg!(miri) || rng.chance(1, 10) => {
+			19 if rng.chance(1, 2) => {
+				// the caller's source panics at some call (what a user's `impl BufRead` may do); the panic is caught, the
+				// reader is then used again and dropped: everything it owns must be released exactly once
+				struct PanickingSource {
+					data: Vec<u8>,
+					pos: usize,
+					chunk: usize,
+					calls: usize,
+					panic_at: usize,
+					_owned: Box<[u64; 4]>,
+				}
+				impl PanickingSource {
+					fn tick(&mut self) {
+						let n = self.calls;
+						self.calls += 1;
+						if n == self.panic_at {
+							panic!("injected source panic");
+						}
+					}
+				}
+				impl std::io::Read for PanickingSource {
+					fn read(&mut self, buf: &mut [u8]) -> std::io::Result<usize> {
+						self.tick();
+						let n = buf.len().min(self.chunk).min(self.data.len() - self.pos);
+						buf[..n].copy_from_slice(&self.data[self.pos..self.pos + n]);
+						self.pos += n;
+						Ok(n)
+					}
+				}
+				impl std::io::BufRead for PanickingSource {
+					fn fill_buf(&mut self) -> std::io::Result<&[u8]> {
+						self.tick();
+						let end = (self.pos + self.chunk).min(self.data.len());
+						Ok(&self.data[self.pos..end])
+					}
+					fn consume(&mut self, amt: usize) {
+						self.pos += amt;
+					}
+				}
+				let schema: Schema = r#"{"type":"record","name":"P","fields":[{"name":"a","type":"long"},{"name":"b","type":"string"}]}"#.parse().unwrap();
+				#[derive(serde_derive::Serialize, serde_derive::Deserialize)]
+				struct P {
+					a: i64,
+					b: String,
+				}
+				let codec = rng.below(n_codecs);
+				let comp = match codec {
+					1 => Compression::Deflate { level: CompressionLevel::new(1) },
+					2 => Compression::Snappy,
+					#[cfg(feature = "ffi_codecs")]
+					3 => Compression::Bzip2 { level: CompressionLevel::new(1) },
+					#[cfg(feature = "ffi_codecs")]
+					4 => Compression::Xz { level: CompressionLevel::new(1) },
+					#[cfg(feature = "ffi_codecs")]
+					5 => Compression::Zstandard { level: CompressionLevel::new(1) },
+					_ => Compression::Null,
+				};
+				let mut cfg = SerializerConfig::new(&schema);
+				let file = (|| {
+					let mut w = WriterBuilder::new(&mut cfg).compression(comp).approx_block_size(24).sync_marker([5; 16]).build(Vec::new()).ok()?;
+					for a in 0..6i64 {
+						w.serialize(P { a, b: format!("value {a}") }).ok()?;
+					}
+					w.into_inner().ok()
+				})();
+				if let Some(file) = file {
+					let chunk = 1 + rng.below(12);
+					// calls needed for a clean read, then a fault at one of them
+					let total_calls = {
+						let src = PanickingSource { data: file.clone(), pos: 0, chunk, calls: 0, panic_at: usize::MAX, _owned: Box::new([1; 4]) };
+						match Reader::from_reader(src) {
+							Ok(mut r) => {
+								while let Ok(Some(_)) = r.deserialize_next::<P>() {}
+								200usize
+							}
+							Err(_) => 0,
+						}
+					};
+					let _ = total_calls;
+					let panic_at = rng.below(if cfg!(miri) { 60 } else { 160 });
+					let src = PanickingSource { data: file.clone(), pos: 0, chunk, calls: 0, panic_at, _owned: Box::new([2; 4]) };
+					let prev_hook = std::panic::take_hook();
+					std::panic::set_hook(Box::new(|_| {}));
+					let mut slot: Option<Reader<serde_avro_fast::de::read::ReaderRead<PanickingSource>>> = None;
+					let built = std::panic::catch_unwind(std::panic::AssertUnwindSafe(|| {
+						slot = Reader::from_reader(src).ok();
+					}));
+					let mut panicked = built.is_err();
+					if let Some(r) = slot.as_mut() {
+						for _ in 0..3 {
+							let res = std::panic::catch_unwind(std::panic::AssertUnwindSafe(|| {
+								let mut n = 0;
+								while let Ok(Some(_)) = r.deserialize_next::<P>() {
+									n += 1;
+									if n > 10 {
+										break;
+									}
+								}
+							}));
+							panicked |= res.is_err();
+						}
+					}
+					// dropping the reader releases the source and the block state once
+					let dropped = std::panic::catch_unwind(std::panic::AssertUnwindSafe(|| drop(slot)));
+					panicked |= dropped.is_err();
+					std::panic::set_hook(prev_hook);
+					c.op(if panicked { "reader-source-panicked" } else { "reader-source-panic-not-reached" });
+				}
+			}
+			19 if !cfg!(miri) || rng.chance(1, 5) => {
 				// a block bigger than the reader's internal 8 KiB buffer, so that the block's decompressor is still in
 				// use when the reader is moved: read one value, move the reader out of a heap slot that is then freed
 				// and refilled, read on; swap two such readers and read on
